@@ -6,7 +6,7 @@ import voluptuous as vol
 
 from .const import get_const
 from .message import Message
-from .validation import is_battery_level, is_heartbeat, safe_is_version
+from .validation import SCHEMA_LOCK, is_battery_level, is_heartbeat, safe_is_version
 
 _LOGGER = logging.getLogger(__name__)
 
@@ -237,4 +237,5 @@ class ChildSensor:
         """Validate child value types and values against protocol_version."""
         if values is None:
             values = self.values
-        return self.get_schema(protocol_version)(values)
+        with SCHEMA_LOCK:
+            return self.get_schema(protocol_version)(values)
